@@ -45,7 +45,7 @@ def extract_collapse(ctx):
     t = extract.cut_function(src, "read_path")
     t = extract.apply_rules(t, [
         ("ref-param", r"^static void read_path\(char \*&r, char \*start\)", "static void read_path(char **r__p, char *start)", 1),
-        ("ref-use", r"(?<![A-Za-z0-9_])r(?![A-Za-z0-9_])", "(*r__p)", 3),
+        ("ref-use", r"(?<![A-Za-z0-9_])r(?![A-Za-z0-9_])", "(*r__p)", None),   # any number of uses >= 1
     ], log, "read_path")
     out.append(t)
     # move_path(char *&r, char *&w, char *start)
@@ -53,16 +53,16 @@ def extract_collapse(ctx):
     t = extract.apply_rules(t, [
         ("ref-param", r"^static void move_path\(char \*&r, char \*&w, char \*start\)",
          "static void move_path(char **r__p, char **w__p, char *start)", 1),
-        ("ref-use", r"(?<![A-Za-z0-9_])r(?![A-Za-z0-9_])", "(*r__p)", 3),
-        ("ref-use", r"(?<![A-Za-z0-9_])w(?![A-Za-z0-9_])", "(*w__p)", 1),
+        ("ref-use", r"(?<![A-Za-z0-9_])r(?![A-Za-z0-9_])", "(*r__p)", None),   # any number of uses >= 1: not a shape property
+        ("ref-use", r"(?<![A-Za-z0-9_])w(?![A-Za-z0-9_])", "(*w__p)", None),
     ], log, "move_path")
     out.append(t)
     # char *Ports::collapsePath(char *p)   (static member: no `this`)
     t = extract.cut_function(src, "collapsePath", qualifier="Ports")
     t = extract.apply_rules(t, [
         ("method-static", r"^char \*Ports::collapsePath\(char \*p\)", "char *Ports_collapsePath(char *p)", 1),
-        ("ref-call", r"(?<![A-Za-z0-9_])read_path\(read_pos, p\)", "read_path(&read_pos, p)", 2),
-        ("ref-call", r"(?<![A-Za-z0-9_])move_path\(read_pos, write_pos, p\)", "move_path(&read_pos, &write_pos, p)", 1),
+        ("ref-call", r"(?<![A-Za-z0-9_])read_path\(read_pos, p\)", "read_path(&read_pos, p)", None),
+        ("ref-call", r"(?<![A-Za-z0-9_])move_path\(read_pos, write_pos, p\)", "move_path(&read_pos, &write_pos, p)", None),
     ], log, "Ports::collapsePath")
     out.append(t)
     # the header must declare it static (otherwise a `this` would exist)
